@@ -354,6 +354,7 @@ func (g *gen) genECC() {
 			g.emit("aztec %s %d %d", hx(g.str("Aztec 12,abc. XY\x80\xfe", n)), pct, layers)
 		}
 	}
+	g.azStuffSweep()
 	for i, c := range dmCaps {
 		for k := 0; k < g.n(2, 10); k++ {
 			g.emit("dm %s", hx(g.dmContent(k%5, c-g.intn(2))))
@@ -489,6 +490,7 @@ func (g *gen) genAccept() {
 		g.emit("aztec %s 33 %d", hx("ABC123"), layers)
 		g.emit("aztec %s 0 %d", hx(g.str("abc", 40)), layers)
 	}
+	g.azStuffSweep()
 	for _, pct := range []int{0, 1, 2, 10, 33, 99, 100, 101, 500, 1000} {
 		g.emit("aztec %s %d 0", hx("ABC123"), pct)
 		g.emit("aztec %s %d 0", hx(g.str("abc\x80", 300)), pct)
@@ -593,7 +595,13 @@ func (g *gen) genMixed(n int, withMut bool) {
 			lvl := g.intn(4)
 			put(fmt.Sprintf("qr %s %d 3", hx(g.str("abcdefgh", qrCapacity(v, lvl, 3))), lvl))
 		case 4:
-			put(fmt.Sprintf("dm %s", hx(g.dmContent(g.intn(5), dmCaps[g.intn(18)]))))
+			// all 24 sizes; every other one from the multi-block sizes (52x52 and up), whose check words are computed
+			// per interleaved block (seed t06: scratch space shared between concurrent multi-block encodes)
+			k := g.intn(24)
+			if g.intn(2) == 0 {
+				k = 14 + g.intn(10)
+			}
+			put(fmt.Sprintf("dm %s", hx(g.dmContent(g.intn(5), dmCaps[k]-g.intn(3)))))
 		case 5:
 			put(fmt.Sprintf("aztec %s %d %d", hx(g.str("Aztec 12,abc.\x80", 1+g.intn(120))), []int{0, 23, 33, 100}[g.intn(4)], []int{0, 0, -3, 5, 12}[g.intn(5)]))
 		case 6:
